@@ -528,6 +528,18 @@ async def c12_part(ctx) -> None:
                     items.append((iid, raw))
                     want.append({(1, iid): {"value": v}})
                 ctx.case("coap-events", k, n, sample={"transport": "coap", "entries": [i for i, _ in items]}, kind="coap-events")
+                if n > 0 and rng.random() < 0.35:
+                    # a datagram that does not authenticate arrives in between (damaged in transit, a duplicate of an earlier
+                    # notification, noise): it reaches nobody - and the notifications that follow still reach everybody
+                    junk = rng.choice(["corrupt", "duplicate", "noise"])
+                    s_ = acc.session
+                    payload = (acc.event_message(items, counter=s_["ec"], corrupt=True) if junk == "corrupt"
+                               else acc.event_message(items, counter=max(0, s_["ec"] - 1)) if junk == "duplicate" else rng.randbytes(rng.choice([1, 16, 40])))
+                    try:
+                        await resource.render_put(Message(code=Code.PUT, payload=payload))
+                    except Exception as ex:  # noqa: BLE001 - how the refusal is expressed is C06's subject
+                        ctx.count("coap_unauthentic_event_refusal_raised_" + type(ex).__name__)
+                    ctx.count("coap_unauthentic_events_in_between")
                 try:
                     resp = await resource.render_put(Message(code=Code.PUT, payload=acc.event_message(items)))
                 except Exception as ex:  # noqa: BLE001
